@@ -120,10 +120,17 @@ class SymNd(np.ndarray):
     def __getitem__(self, k):
         if isinstance(k, BoolNd):
             k = _concrete_mask(k)
+        elif isinstance(k, tuple) and any(isinstance(x, BoolNd) for x in k):
+            k = tuple(_concrete_mask(x) if isinstance(x, BoolNd) else x for x in k)
         r = _nd_getitem(self, k)
         return r
 
     def __setitem__(self, k, v):
+        if isinstance(k, tuple) and any(isinstance(x, BoolNd) for x in k):
+            # several symbolic masks in one index (a[mask, mask] = ...): the masks are made concrete by forking the path
+            k = tuple(_concrete_mask(x) if isinstance(x, BoolNd) else x for x in k)
+            _nd_setitem(self, k, v)
+            return
         if isinstance(k, BoolNd):
             flat_k = np.broadcast_to(k, self.shape)
             vb = np.broadcast_to(np.asarray(v, dtype=object), self.shape) if np.ndim(v) else None
@@ -170,6 +177,10 @@ class SymNd(np.ndarray):
         ins = tuple(np.asarray(x).view(np.ndarray) if isinstance(x, np.ndarray) else x for x in inputs)
         ins = tuple(x.astype(object) if isinstance(x, np.ndarray) and x.dtype != object else x for x in ins)
         if out is not None:
+            if any(isinstance(o, np.ndarray) and _nd_dtype(o) != object for o in out) and any(has_sym(x) and not is_concrete(x) for x in inputs):
+                # `int_or_float_array op= symbolic array`: numpy would have to store symbols in a numeric buffer.  The symbolic run stops
+                # here (stub miss); a model of the path is replayed on the real code, where the operation is well defined.
+                raise core.StubMiss("in-place ufunc into a numeric (non-object) array with a symbolic operand")
             kwargs["out"] = tuple(o.view(np.ndarray) if isinstance(o, np.ndarray) else o for o in out)
         if ufunc in (np.less, np.less_equal, np.greater, np.greater_equal, np.equal, np.not_equal) and method == "__call__":
             a, b = inputs
@@ -522,6 +533,27 @@ def _argmin(a, axis=None, **kw):
     return _argmax(_map(lambda x: -Sym.of(x), np.asarray(a, dtype=object)))
 
 
+def _bincount(x, weights=None, minlength=0):
+    """np.bincount on symbolic integer data: count_v = sum_i [x_i == v]; entries outside 0..minlength-1 are resolved by forking (numpy
+    would enlarge the result / raise for negative entries)"""
+    if weights is not None:
+        raise core.StubMiss("bincount with weights on symbolic data")
+    xs = _flat(x)
+    n = int(minlength)
+    for d in xs:
+        if not bool(Sym.of(d) >= 0):
+            raise ValueError("'list' argument must have no negative elements")
+        if not bool(Sym.of(d) < n):
+            raise core.StubMiss("bincount: symbolic entry beyond minlength")
+    out = []
+    for v in range(n):
+        c = 0
+        for d in xs:
+            c = c + core.ite(Sym.of(d) == v, 1, 0)
+        out.append(c)
+    return SymNd(out)
+
+
 def _count_nonzero(a, axis=None, **kw):
     tot = 0
     for x in _flat(a):
@@ -674,7 +706,7 @@ OVERRIDES = {
     np.where: _where, np.any: _any, np.all: _all, np.abs: _abs, np.absolute: _abs,
     np.isclose: _isclose, np.allclose: _allclose, np.array_equal: _array_equal,
     np.sqrt: _sqrt, np.log: _log, np.maximum: _maximum, np.minimum: _minimum,
-    np.real: _real, np.imag: _imag, np.count_nonzero: _count_nonzero, np.argmax: _argmax, np.argmin: _argmin,
+    np.real: _real, np.imag: _imag, np.count_nonzero: _count_nonzero, np.argmax: _argmax, np.argmin: _argmin, np.bincount: _bincount,
     np.iscomplexobj: _iscomplexobj, np.isrealobj: _isrealobj,
     np.max: _amax, np.min: _amin, np.amax: _amax, np.amin: _amin,
     np.linalg.norm: _norm, np.linalg.inv: _inv, np.isnan: _isnan,
@@ -781,7 +813,8 @@ class NpProxy(types.ModuleType):
                 return f(*a, **kw)
             # numpy dispatches on SymNd arguments by itself; bare symbolic scalars need help, and results
             # assembled from python lists of symbolic arrays come back as plain object arrays
-            if ov is not None and (any(type(x) is Sym or isinstance(x, SBool) for x in a) or any(type(x) is Sym for x in kw.values())):
+            if ov is not None and (any(type(x) is Sym or isinstance(x, SBool) for x in a) or any(type(x) is Sym for x in kw.values())
+                                   or any(isinstance(x, (list, tuple)) and has_sym(x) for x in a)):
                 return ov(*a, **kw)
             return _wrap(f(*a, **kw))
         wrapped.__name__ = n
